@@ -357,6 +357,24 @@ fn open_dict(path: &Path, sqlite: bool) -> Option<Box<dyn Dictionary>> {
     Trie::open(path).ok().map(|d| Box::new(d) as Box<dyn Dictionary>)
 }
 
+/// the order in which `Trie::entries()` visits the keys (C11 `entries_order` / `Cli.trieOrder`): `sorted` = the keys in
+/// lexicographic order of their syllable codes with a prefix before its extensions, cut into the maximal runs in which
+/// every key is a prefix of the next one, every run reversed
+fn entries_key_order(sorted: Vec<Vec<u16>>) -> Vec<Vec<u16>> {
+    let mut out: Vec<Vec<u16>> = vec![];
+    let mut run: Vec<Vec<u16>> = vec![];
+    for k in sorted {
+        if let Some(last) = run.last() {
+            if !k.starts_with(last) {
+                out.extend(run.drain(..).rev());
+            }
+        }
+        run.push(k);
+    }
+    out.extend(run.drain(..).rev());
+    out
+}
+
 fn to_syls(key: &[String]) -> Option<Vec<Syllable>> {
     key.iter().map(|s| s.parse::<Syllable>().ok()).collect()
 }
@@ -587,6 +605,8 @@ struct Stats {
     defects: BTreeMap<String, u64>,
     f34_changed: u64,
     f34_unchanged_single_keys: u64,
+    dump_order_checked: u64,
+    dump_order_with_chain: u64,
 }
 
 /// realised distribution of one generated well-formed source (goes to the evidence as `#stat gen.*`)
@@ -784,6 +804,41 @@ fn check_source(
                     || (has_tone1 && want.keys().any(|w| w.1 == k.1 && w.0.iter().map(|s| s.replace('ˉ', "")).collect::<Vec<_>>() == k.0));
                 if !back {
                     fail(out, "new", format!("dump contains {:?} which is not a record of the source", k));
+                }
+            }
+        }
+        // the ORDER of the trie back end's dump (C20 `dump_order_linked` from C11 `entries_order`): the keys sorted
+        // lexicographically by syllable code with a prefix first, every maximal chain "each key a prefix of the next"
+        // reversed (Trie::entries descends along first children and pops its results deepest first); all records of a
+        // key together.  Keys as codes through the library's spelling parser; sources with a first-tone mark are
+        // skipped (F18: two different keys are spelled alike in the dump)
+        if !cfg.sqlite && !has_tone1 && undetected.is_empty() {
+            let mut seq: Vec<Vec<u16>> = vec![];
+            let mut all = true;
+            for x in &recs {
+                match to_syls(&x.syls) {
+                    Some(ks) => {
+                        let k: Vec<u16> = ks.iter().map(|s| s.to_u16()).collect();
+                        if seq.last() != Some(&k) {
+                            seq.push(k);
+                        }
+                    }
+                    None => all = false,
+                }
+            }
+            if all {
+                let mut sorted = seq.clone();
+                sorted.sort();
+                sorted.dedup();
+                let order = entries_key_order(sorted);
+                st.dump_order_checked += 1;
+                if order.iter().zip(order.iter().skip(1)).any(|(a, b)| b.len() < a.len() && a.starts_with(b)) {
+                    st.dump_order_with_chain += 1;
+                }
+                if seq != order {
+                    let at = seq.iter().zip(order.iter()).position(|(a, b)| a != b).unwrap_or(order.len().min(seq.len()));
+                    fail(out, "new", format!("dump{} of the trie file lists the keys in the order {:?} but the depth-first order (sorted keys, prefix chains deepest first) is {:?}: first difference at key {}",
+                        if csvd { " --csv" } else { "" }, seq, order, at));
                 }
             }
         }
@@ -1004,6 +1059,8 @@ fn main() {
         defects: BTreeMap::new(),
         f34_changed: 0,
         f34_unchanged_single_keys: 0,
+        dump_order_checked: 0,
+        dump_order_with_chain: 0,
     };
 
     // char::is_whitespace on every code point
@@ -1220,6 +1277,8 @@ fn main() {
     out.stat("malformed_lines_undetected_known_class", st.undetected_known);
     out.stat("recompiles_of_dumps", st.recompiles);
     out.stat("library_lookups", st.lookups);
+    out.stat("trie_dump_order_checked", st.dump_order_checked);
+    out.stat("trie_dump_order_with_a_prefix_chain", st.dump_order_with_chain);
     out.stat("sqlite", sqlite_ok as u8);
     for (k, v) in &st.by_kind {
         out.stat(&format!("corruption.{}", k), v);
